@@ -163,6 +163,9 @@ type Tmpl struct {
 
 	// IssuerName overrides the issuer DN (issuer name != signer's subject).
 	IssuerName *pkix.Name
+
+	// SHA1 signs the certificate with sha1WithRSAEncryption / ecdsa-with-SHA1 (a valid signature under a deprecated algorithm).
+	SHA1 bool
 }
 
 // Cert is a forged certificate with its subject key.
@@ -316,6 +319,12 @@ func Issue(t Tmpl, subjectKey *Key, parent *Cert, signer *Key) *Cert {
 	if parent == nil && t.IssuerName == nil && signKey != subjectKey {
 		// "self-issued" name but signed by another key
 		parentTm = &x509.Certificate{Subject: tm.Subject, PublicKey: signKey.Pub}
+	}
+	if t.SHA1 {
+		tm.SignatureAlgorithm = x509.ECDSAWithSHA1
+		if _, isRSA := signKey.Pub.(*rsa.PublicKey); isRSA {
+			tm.SignatureAlgorithm = x509.SHA1WithRSA
+		}
 	}
 	der, err := x509.CreateCertificate(rand.Reader, tm, parentTm, subjectKey.Pub, signKey.Priv)
 	if err != nil {
